@@ -900,6 +900,12 @@ class JSExec(GoExec, SpecMixin, CallsMixin):
                                     patterns=[z3.Select(na, k)]))
                 return StrV(na, z3.IntVal(0), src.length)
             obj = self.ev(st, c['object'])
+            if isinstance(obj, JSDesc) and mname == 'zero' and not args:
+                # T.zero(): a new value object of the type (different from every value object the function holds)
+                r = fresh('zero.ref'); st.assume(r > 0)
+                for v in st.env.values():
+                    if isinstance(v, JSRec): st.assume(r != v.ref)
+                return JSRec(r)
             if isinstance(obj, JSDesc) and mname == 'keyFor' and len(args) == 1:
                 # the map-key string of a value, computed by the value's type: opaque (a string identity)
                 self.ev(st, args[0])
